@@ -102,6 +102,9 @@ def run_case(case, ctx):
         elif cond.get('as') == 'two_dicts' and len(conds) >= 2:
             ks = list(conds)
             args, kw = ({k: conds[k] for k in ks[:1]}, {k: conds[k] for k in ks[1:]}), {}
+        elif cond.get('as') == 'list_of_dicts' and len(conds) >= 1:
+            ks = list(conds)
+            args, kw = ([{k: conds[k] for k in ks[:1]}] + ([{k: conds[k] for k in ks[1:]}] if len(ks) > 1 else []),), {}        # the conditions as ONE list of dict filters, kept and used again by the caller
         else:
             args, kw = (), conds
         if 'self' in kw:
@@ -113,6 +116,7 @@ def run_case(case, ctx):
 
     def fresh_args():
         return tuple(type(a)(a) if isinstance(a, dict) else a for a in args), dict(kw)
+    list_args = [(a, list(a)) for a in args if isinstance(a, list)]
     a1, k1 = fresh_args()
     keep1 = [dict(a) if isinstance(a, dict) else a for a in a1]
     st, inc = ctx.call(d.inc, *a1, **k1)
@@ -121,6 +125,7 @@ def run_case(case, ctx):
     keep2 = [dict(a) if isinstance(a, dict) else a for a in a2]
     st2, exc = ctx.call(d.exc, *a2, **k2)
     ctx.check('operands_unchanged', all((not isinstance(a, dict)) or (list(a.keys()) == list(b.keys()) and all(a[k] is b[k] or a[k] == b[k] or (a[k] != a[k]) for k in a)) for a, b in zip(a2, keep2)), lambda: 'exc edited the filter dict it was given: %r -> %r' % (keep2, a2))
+    ctx.check('operands_unchanged', all(len(a) == len(b) and all(x is y for x, y in zip(a, b)) for a, b in list_args), lambda: 'inc / exc edited the list of dict filters it was given: %r -> %r' % ([b for _, b in list_args], [a for a, _ in list_args]))
     if st != 'ok' or st2 != 'ok':
         ctx.ev('inc_rows_model')
         ctx.fail('inc_rows_model', 'inc/exc raised: %s / %s' % (inc if st != 'ok' else 'ok', exc if st2 != 'ok' else 'ok'))
@@ -207,6 +212,20 @@ def run_case(case, ctx):
             ctx.check('one_or_none', st6 == 'ok' and isinstance(one, dict) and one['id'] == exp_inc[0], lambda: 'one_or_none -> %s %r' % (st6, one))
         else:
             ctx.check('one_or_none', st6 == 'exc' and isinstance(one, ValueError), lambda: 'one_or_none with %d rows -> %s %r' % (len(exp_inc), st6, one))
+    # the caller's value lists are the caller's: emptied and refilled with something else after the calls above, they have no say in what a NEW
+    # condition, equal to what they used to hold, selects (nothing the library remembers about an earlier condition may point at them)
+    lists_ = [v for a in list(args) + [kw] if isinstance(a, dict) for v in a.values() if isinstance(v, list)]
+    if lists_ and not inf_vs_nan and 'kw' in cond:
+        renew = lambda a: {c: (list(v) if isinstance(v, list) else v) for c, v in a.items()} if isinstance(a, dict) else a
+        na, nk = tuple(renew(a) for a in args), renew(kw)
+        for l_ in lists_:
+            l_[:] = ['__edited_by_the_caller__']
+        st10, exc10 = ctx.call(d.exc, *na, **nk)
+        st11, inc11 = ctx.call(d.inc, *na, **nk)
+        ctx.check('results_are_fresh', st10 == 'ok' and st11 == 'ok' and full(exc10, exp_exc) and full(inc11, exp_inc),
+                  lambda: 'after the caller emptied the value lists of the earlier conditions, a new equal condition selects inc %s / exc %s; model %s / %s' % (
+                      list(inc11.get('id')) if st11 == 'ok' else inc11, list(exc10.get('id')) if st10 == 'ok' else exc10, exp_inc, exp_exc))
+        ctx.cls('value_lists_edited_between_calls')
     k = sum(sel)
     mix = 'kw' in cond and any(v is None for v in cond['kw'].values()) and any(isinstance(v, dict) and '$nan' in v for v in cond['kw'].values())
     if 0 < k < n or mix:
@@ -271,7 +290,7 @@ def gen_case(rng):
                 if rng.random() < 0.5:
                     cols[c] = [(x.upper() if isinstance(x, str) and rng.random() < 0.5 else x) for x in cols[c]]
             kw[c] = v
-        cond = {'kw': kw, 'as': rng.choice(['kw', 'kw', 'dict', 'split', 'two_dicts', 'Dict', 'dictattr'])}
+        cond = {'kw': kw, 'as': rng.choice(['kw', 'kw', 'dict', 'split', 'two_dicts', 'Dict', 'dictattr', 'list_of_dicts'])}
     if 'kw' in cond and n and rng.random() < 0.08:
         # a column mixing numbers with strings that spell the same numbers (ids read from two sources), no None: a string condition means the string
         c = names[0]
